@@ -1,6 +1,6 @@
 (* Proofs about Model/Time.v (property C14). *)
 From Coq Require Import String List Bool Ascii ZArith QArith Qcanon Lia Permutation.
-Require Import TV.Model.Fusion TV.Model.Time.
+Require Import TV.Model.Fusion TV.Model.Time TV.Proofs.FusionProofs.
 Import ListNotations.
 Open Scope list_scope.
 
@@ -388,5 +388,218 @@ Section Alg.
     destruct (spec_shape_sound blocks) as [S1 S2]. split.
     - congruence.
     - eapply Permutation_trans; [exact E2|]. eapply Permutation_trans; [exact H2|exact S2].
+  Qed.
+
+  (* ------------------------------------------------------------------------- *)
+  (* Collector.__build_time computes the roll-up                                 *)
+  (* ------------------------------------------------------------------------- *)
+  Lemma dict_get_add d c t k :
+    dict_get (dict_add d c t) k =
+    if String.eqb k c then Some (match dict_get d c with Some v => TAdd v t | None => t end) else dict_get d k.
+  Proof.
+    induction d as [|[k' v] d IH]; simpl.
+    - rewrite (String.eqb_sym c k). reflexivity.
+    - destruct (String.eqb_spec k' c) as [->|N]; simpl.
+      + rewrite (String.eqb_sym c k). destruct (String.eqb_spec k c); reflexivity.
+      + destruct (String.eqb_spec k' k) as [->|N2].
+        * destruct (String.eqb_spec k c); [congruence|reflexivity].
+        * exact IH.
+  Qed.
+
+  Lemma keys_dict_add d c t :
+    map fst (dict_add d c t) = if mem c (map fst d) then map fst d else map fst d ++ [c].
+  Proof.
+    unfold mem. induction d as [|[k' v] d IH]; simpl; [reflexivity|].
+    rewrite (String.eqb_sym c k'). destruct (String.eqb k' c); simpl; [reflexivity|].
+    rewrite IH. destruct (existsb (String.eqb c) (map fst d)); reflexivity.
+  Qed.
+
+  Lemma dict_get_some_in d k v : dict_get d k = Some v -> In k (map fst d).
+  Proof.
+    induction d as [|[k' v'] d IH]; simpl; [discriminate|].
+    destruct (String.eqb_spec k' k); [auto|]. intros H. right. auto.
+  Qed.
+
+  Lemma dict_get_in d k : In k (map fst d) -> exists v, dict_get d k = Some v.
+  Proof.
+    induction d as [|[k' v'] d IH]; simpl; [tauto|].
+    destruct (String.eqb_spec k' k); [eauto|]. intros [?|?]; [contradiction|auto].
+  Qed.
+
+  Definition dinv (d : dict) (ps : list leaf) : Prop :=
+    NoDup (map fst d) /\ (forall k, In k (map fst d) <-> In k (map snd ps)) /\
+    (forall k v, dict_get d k = Some v -> ev v = sl (of_comp k ps) /\ leaves v = of_comp k ps).
+
+  Lemma of_comp_app c l1 l2 : of_comp c (l1 ++ l2) = of_comp c l1 ++ of_comp c l2.
+  Proof. apply filter_app. Qed.
+
+  Lemma of_comp_absent c ps : ~ In c (map snd ps) -> of_comp c ps = [].
+  Proof.
+    induction ps as [|p ps IH]; simpl; [reflexivity|]. intros H.
+    destruct (String.eqb_spec (snd p) c); [tauto|]. apply IH. tauto.
+  Qed.
+
+  Lemma dinv_step d ps e c : dinv d ps -> dinv (dict_add d c (TLeaf e c)) (ps ++ [(e, c)]).
+  Proof.
+    intros [Hnd [Hmem Hval]]. split; [|split].
+    - rewrite keys_dict_add. destruct (mem c (map fst d)) eqn:Em; [exact Hnd|].
+      apply (Permutation_NoDup (l := c :: map fst d)); [apply Permutation_cons_append|].
+      constructor; [|exact Hnd]. intros Hin. apply mem_In in Hin. congruence.
+    - intros k. rewrite map_app, in_app_iff, keys_dict_add. simpl.
+      destruct (mem c (map fst d)) eqn:Em.
+      + apply mem_In in Em. rewrite <- Hmem. split; [tauto|]. intros [?|[<-|[]]]; assumption.
+      + rewrite in_app_iff, Hmem. simpl. tauto.
+    - intros k v. rewrite dict_get_add, of_comp_app. simpl.
+      destruct (String.eqb_spec k c) as [->|N].
+      + rewrite String.eqb_refl. intros H. inversion H; subst; clear H.
+        destruct (dict_get d c) as [v0|] eqn:Eg.
+        * destruct (Hval c v0 Eg) as [H1 H2]. simpl. rewrite H1, H2. split; [|reflexivity].
+          rewrite sl_app. unfold sum_leaves at 3. simpl. unfold rho_l. simpl. rewrite add_0_r. reflexivity.
+        * assert (Hn : ~ In c (map snd ps)).
+          { rewrite <- Hmem. intros Hin. apply dict_get_in in Hin as [v Hv]. congruence. }
+          rewrite (of_comp_absent c ps Hn). simpl. split; [|reflexivity].
+          unfold sum_leaves. simpl. unfold rho_l. simpl. rewrite add_0_r. reflexivity.
+      + destruct (String.eqb_spec c k) as [->|_]; [congruence|]. rewrite app_nil_r. apply Hval.
+  Qed.
+
+  Lemma fold_bstep_inv ps : forall d l done, dinv d done -> dinv (fst (fold_left bstep ps (d, l))) (done ++ ps).
+  Proof.
+    induction ps as [|[e c] ps IH]; intros d l done H; simpl.
+    - rewrite app_nil_r. exact H.
+    - unfold bstep at 2. simpl. change (done ++ (e, c) :: ps) with (done ++ [(e, c)] ++ ps). rewrite app_assoc.
+      apply IH. apply dinv_step. exact H.
+  Qed.
+
+  Lemma fold_bstep_last ps : forall st, ps <> [] ->
+    exists c, snd (fold_left bstep ps st) = Some c /\ In c (map snd ps).
+  Proof.
+    induction ps as [|p ps IH]; intros st H; [congruence|]. simpl.
+    destruct ps as [|q ps].
+    - simpl. exists (snd p). auto.
+    - destruct (IH (bstep st p)) as [c [H1 H2]]; [discriminate|]. exists c. split; [exact H1|right; exact H2].
+  Qed.
+
+  Lemma insert_s_perm x l : Permutation (insert_s x l) (x :: l).
+  Proof.
+    induction l as [|y l IH]; simpl; [constructor; constructor|].
+    destruct (String.leb x y); [apply Permutation_refl|].
+    eapply Permutation_trans; [apply perm_skip; exact IH|apply perm_swap].
+  Qed.
+
+  Lemma sort_s_perm l : Permutation (sort_s l) l.
+  Proof.
+    induction l as [|x l IH]; simpl; [constructor|].
+    eapply Permutation_trans; [apply insert_s_perm|]. constructor. exact IH.
+  Qed.
+
+  Lemma get_all_in d ks : (forall k, In k ks -> In k (map fst d)) ->
+    exists vs, get_all d ks = Some vs /\ Forall2 (fun k v => dict_get d k = Some v) ks vs.
+  Proof.
+    induction ks as [|k ks IH]; simpl; intros H.
+    - exists []. split; [reflexivity|constructor].
+    - destruct (dict_get_in d k (H k (or_introl eq_refl))) as [v Hv].
+      destruct IH as [vs [H1 H2]]; [intros; apply H; right; assumption|].
+      rewrite Hv, H1. exists (v :: vs). split; [reflexivity|constructor; assumption].
+  Qed.
+
+  Lemma eval_fold_max vs : forall v, ev (fold_left TMax vs v) = maxl mx (ev v) (map ev vs).
+  Proof. induction vs as [|w vs IH]; intros v; simpl; [reflexivity|]. rewrite IH. reflexivity. Qed.
+
+  Lemma leaves_fold_max vs : forall v, leaves (fold_left TMax vs v) = leaves v ++ flat_map leaves vs.
+  Proof.
+    induction vs as [|w vs IH]; intros v; simpl; [rewrite app_nil_r; reflexivity|].
+    rewrite IH. simpl. rewrite app_assoc. reflexivity.
+  Qed.
+
+  Lemma vals_of (d : dict) ps ks vs :
+    (forall k v, dict_get d k = Some v -> ev v = sl (of_comp k ps) /\ leaves v = of_comp k ps) ->
+    Forall2 (fun k v => dict_get d k = Some v) ks vs ->
+    map ev vs = map (fun k => sl (of_comp k ps)) ks /\ flat_map leaves vs = flat_map (fun k => of_comp k ps) ks.
+  Proof.
+    intros Hval HF. induction HF as [|k v ks' vs' Hkv _ [I1 I2]]; simpl; [split; reflexivity|].
+    destruct (Hval k v Hkv) as [H1 H2].
+    split; [f_equal; [exact H1|exact I1]|rewrite H2, I2; reflexivity].
+  Qed.
+
+  Lemma block_expr_sound last b :
+    exists x last', block_expr comps last b = (Some x, last') /\ ev x = bt b /\
+                    Permutation (leaves x) (pairs_of comps b).
+  Proof.
+    unfold block_expr.
+    set (ps := pairs_of comps b).
+    set (st := fold_left bstep ps ([], last)).
+    assert (Hinv : dinv (fst st) ps).
+    { apply (fold_bstep_inv ps [] last []). split; [constructor|split]; simpl; [tauto|discriminate]. }
+    destruct Hinv as [Hnd [Hmem Hval]].
+    set (d := fst st) in *.
+    set (ks := sort_s (map fst d)).
+    assert (Pk : Permutation ks (map fst d)) by apply sort_s_perm.
+    assert (Pa : Permutation ks (active comps b)).
+    { eapply Permutation_trans; [exact Pk|]. apply NoDup_Permutation; [exact Hnd|apply nodup_s_NoDup|].
+      intros k. unfold active. rewrite nodup_s_In. apply Hmem. }
+    assert (Hin : forall k, In k ks -> In k (map fst d)).
+    { intros k Hk. eapply Permutation_in; [exact Pk|exact Hk]. }
+    destruct (get_all_in d ks Hin) as [vs [Hga HF]].
+    assert (Hev : map ev vs = map (ct b) ks /\ flat_map leaves vs = flat_map (fun k => of_comp k ps) ks).
+    { exact (vals_of d ps ks vs Hval HF). }
+    destruct Hev as [Hev Hlv].
+    assert (F1 : mlist (map (ct b) ks) = bt b).
+    { rewrite block_time_mlist. apply mlist_perm. apply Permutation_map. exact Pa. }
+    assert (F2 : Permutation (flat_map (fun k => of_comp k ps) ks) ps).
+    { apply groups_perm.
+      - eapply Permutation_NoDup; [apply Permutation_sym; exact Pk|exact Hnd].
+      - intros p Hp. eapply Permutation_in; [apply Permutation_sym; exact Pa|]. apply pairs_in_active. exact Hp. }
+    destruct ks as [|k [|k2 ks']] eqn:Eks.
+    - exists TZero, (snd st). split; [reflexivity|]. simpl in *. split; [exact F1|exact F2].
+    - (* one component: component_time[comp] with the loop variable *)
+      assert (Hne : ps <> []).
+      { intros E. assert (Hk : In k (map snd ps)) by (apply Hmem, Hin; left; reflexivity). rewrite E in Hk. exact Hk. }
+      destruct (fold_bstep_last ps ([], last) Hne) as [c [Hc1 Hc2]]. fold st in Hc1.
+      assert (c = k).
+      { apply Hmem in Hc2. eapply Permutation_in in Hc2; [|apply Permutation_sym; exact Pk].
+        destruct Hc2 as [?|[]]. congruence. }
+      subst c. rewrite Hc1.
+      inversion HF as [|? v ? ? Hkv HF' ]; subst. inversion HF'; subst.
+      rewrite Hkv. exists v, (Some k). split; [reflexivity|].
+      simpl in Hev, Hlv, F1, F2. inversion Hev as [Hv]. split.
+      + rewrite Hv. exact F1.
+      + rewrite app_nil_r in Hlv. rewrite Hlv. exact F2.
+    - rewrite Hga. destruct vs as [|v vs']; [inversion HF|].
+      exists (fold_left TMax vs' v), (snd st). split; [reflexivity|]. split.
+      + rewrite eval_fold_max. rewrite <- F1, <- Hev. reflexivity.
+      + rewrite leaves_fold_max. change (leaves v ++ flat_map leaves vs') with (flat_map leaves (v :: vs')).
+        rewrite Hlv. exact F2.
+  Qed.
+
+  Lemma build_time_from_sound blocks : forall time last,
+    (time = None -> blocks <> []) ->
+    exists x, build_time_from comps time last blocks = Some x /\
+      ev x = match time with Some t => add (ev t) (ru blocks) | None => ru blocks end /\
+      Permutation (leaves x) (match time with Some t => leaves t | None => [] end ++ all_pairs comps blocks).
+  Proof.
+    induction blocks as [|b bs IH]; intros time last Hne; cbn [build_time_from].
+    - destruct time as [t|]; [|exfalso; apply Hne; reflexivity].
+      exists t. unfold rollup. simpl. rewrite add_0_r, app_nil_r. repeat split. apply Permutation_refl.
+    - destruct (block_expr_sound last b) as [x [last' [Hb [Hev Hlv]]]]. rewrite Hb.
+      destruct (IH (Some (match time with Some t => TAdd t x | None => x end)) last') as [y [Hy [Ey Ly]]]; [discriminate|].
+      exists y. split; [exact Hy|]. unfold rollup in *. simpl. destruct time as [t|]; simpl in *.
+      + split.
+        * rewrite Ey, Hev. rewrite !add_assoc. reflexivity.
+        * eapply Permutation_trans; [exact Ly|]. rewrite <- !app_assoc. apply Permutation_app_head.
+          apply Permutation_app_tail. exact Hlv.
+      + split.
+        * rewrite Ey, Hev. reflexivity.
+        * eapply Permutation_trans; [exact Ly|]. apply Permutation_app_tail. exact Hlv.
+  Qed.
+
+  (* THE CODE'S EXPRESSION: never raises for a non-empty block list, denotes the roll-up, and its leaves are
+     exactly the registered pairs *)
+  Theorem build_time_sem blocks :
+    blocks <> [] ->
+    exists x, build_time comps blocks = Some x /\ ev x = ru blocks /\
+              Permutation (leaves x) (all_pairs comps blocks).
+  Proof.
+    intros H. destruct (build_time_from_sound blocks None None (fun _ => H)) as [x [H1 [H2 H3]]].
+    exists x. auto.
   Qed.
 End Alg.
